@@ -52,6 +52,9 @@ def execute(spec, want=("C01",), keep_trace=False):
             w.dump_users = True
         if "TCLI" in want:
             w.dump_clients = True
+        if "C08" in want:
+            w.dump_users = True
+            w.k.cmd("dumpin 1")
         hs = sess.handshake()
         res["stats"]["handshake"] = hs
         res["stats"]["hs_end_us"] = w.now
@@ -74,6 +77,11 @@ def execute(spec, want=("C01",), keep_trace=False):
         relay.qhist = []
         rng = random.Random(seed * 7 + 1)
         frames = {}
+        for ra in spec.get("replay_ack", []):
+            # at exact instants (microseconds after the handshake) the path delivers again the OLDEST ping it has seen
+            # since the handshake that acknowledges downstream (dseq, dfrag) - with a new id, optionally from another port
+            for k, at in enumerate(ra["at_us"]):
+                w.call_at(t0 + at, lambda w_=w, ra_=ra, k_=k: _replay_ack(w_, relay, sess, ra_, k_))
         if hs:
             for i, (t_ms, side, dst, kind, size) in enumerate(spec.get("pkts", [])):
                 if kind.startswith("frags:"):
@@ -118,6 +126,23 @@ def execute(spec, want=("C01",), keep_trace=False):
         if sess is not None:
             sess.close()
     return res
+
+
+def _replay_ack(w, relay, sess, ra, k):
+    import struct
+    for n, oserial, (odata, osrc, odst) in relay.qhist:
+        m = D.parse(odata)
+        if m.errors or not m.qd or m.qr:
+            continue
+        c = proto.classify_query(m.qd[0][0], sess.domain)
+        if c["kind"] == "ping" and (c["dseq"], c["dfrag"]) == (ra["dseq"], ra["dfrag"]):
+            nid = (m.id + 1000 * (k + 1) + 17) & 0xFFFF or 9
+            nd = struct.pack(">H", nid) + odata[2:] if ra.get("newid", 1) else odata
+            src2 = (osrc[0], osrc[1] + 1000) if ra.get("otherport") else osrc
+            back = relay.count["q"] - 1 - n
+            w._arrive(oserial, nd, src2, odst, {"redeliver_of": oserial, "newid": bool(ra.get("newid", 1)), "flip": False,
+                                                "otherport": bool(ra.get("otherport")), "back": back})
+            return
 
 
 def frag_unit(w, sess, side):
@@ -560,6 +585,75 @@ def abs_c08(w, sess, frames, t0, hs_len, res):
         kind = proto.classify_query(m.qd[0][0], sess.domain).get("kind", "unknown") if m.qd else "unknown"
         evs.append({"e": "Wire", "L": L, "dom": dom, "name": list(name), "kind": kind})
     res["stats"]["wire_names"] = len(evs)
+    evs += _extract_events(w, sess, res)
+    return evs
+
+
+def _extract_events(w, sess, res, cap=40):
+    """Extract events: what the real server appended to a session's upstream reassembly buffer when it handled a data
+    query of the real client (users[].inpacket before / after the server step), next to the query name and the codec the
+    CLIENT is using (b32 until the server acknowledged one of its codec-switch requests).  Only steps that handled exactly
+    one data query of that session and left the packet incomplete show the appended bytes."""
+    import codec as CD
+    evs = []
+    bits_name = {5: "b32", 6: "b64", 26: "b64u", 7: "b128"}
+    clicodec = {}
+    asked = {}
+    fifo = []
+    cur = None
+    prev = {}
+    dom = [ord(c) for c in sess.domain]
+    for e in w.trace:
+        ev = e["ev"]
+        if ev == "Deliver" and e.get("to") == "S":
+            fifo.append(e)
+        elif ev == "Wake" and e["inst"] == "S":
+            cur = []
+        elif ev == "Recv" and e.get("inst") == "S":
+            d = fifo.pop(0) if fifo else None
+            if cur is not None and d is not None:
+                cur.append(d)
+        elif ev == "Send" and e.get("inst") == "S":
+            m = D.parse(e["data"]) if e["data"][:3] != proto.RAW_HDR and len(e["data"]) >= 12 else None
+            if m is not None and m.qr and m.qd and not m.errors:
+                c = proto.classify_query(m.qd[0][0], sess.domain)
+                if c["kind"] == "switchcodec":
+                    pl = proto.decode_answer(m)
+                    if pl in (b"Base32", b"Base64", b"Base64u", b"Base128"):
+                        clicodec[c["uid"]] = bits_name.get(c["bits"], "b32")
+                elif c["kind"] == "version":
+                    pl = proto.decode_answer(m)
+                    if pl and pl[:4] == b"VACK" and len(pl) >= 9:
+                        clicodec[pl[8]] = "b32"
+        elif ev == "SrvState":
+            now = {u["u"]: u for u in e["users"]}
+            datas = []
+            for d in cur or []:
+                m = D.parse(d["data"]) if d["data"][:3] != proto.RAW_HDR and len(d["data"]) >= 12 else None
+                if m is None or m.errors or not m.qd or m.qr:
+                    continue
+                c = proto.classify_query(m.qd[0][0], sess.domain)
+                if c["kind"] == "data":
+                    datas.append((c, m))
+            if len(datas) == 1 and len(evs) < cap:
+                c, m = datas[0]
+                u = c["uid"]
+                a, b = now.get(u), prev.get(u)
+                if a and b and a.get("auth") and "indata" in a and a["in"][2] > 0:
+                    after = bytes.fromhex(a["indata"])
+                    before = bytes.fromhex(b.get("indata", ""))
+                    app = None
+                    if a["in"][0] == b["in"][0] and a["in"][1] == b["in"][1] + 1 and after[:len(before)] == before and len(after) > len(before):
+                        app = after[len(before):]
+                    elif a["in"][0] != b["in"][0] and a["in"][1] == c["ufrag"]:
+                        app = after
+                    if app is not None and (a["in"][0], a["in"][1]) == (c["useq"], c["ufrag"]):
+                        name = b".".join(m.qd[0][0])
+                        evs.append({"e": "Extract", "dom": dom, "name": list(name), "hdr": 5,
+                                    "codec": clicodec.get(u, "b32"), "srv": list(app)})
+            prev = now
+            cur = None
+    res["stats"]["extracts"] = len(evs)
     return evs
 
 
